@@ -75,6 +75,9 @@ impl StoreKey {
     pub fn unwrap_data(&self, ciphertext: Vec<u8>) -> Result<SecretBytes, Error> {
         match &self.0 {
             Some(key) => {
+                if ciphertext.len() < StoreKeyNonce::SIZE {
+                    return Err(err_msg!(Encryption, "invalid encrypted value"));
+                }
                 let nonce = StoreKeyNonce::from_slice(&ciphertext[..StoreKeyNonce::SIZE]);
                 let mut buffer = SecretBytes::from(ciphertext);
                 buffer.buffer_remove(0..StoreKeyNonce::SIZE)?;
